@@ -63,6 +63,7 @@ def add_uplink(u):
                      '            && r->Ok_0.srtla_ack_numbers@ =~= (if %s == Some(0x9100u16) { spec_parse_srtla_ack(data@) } else { Seq::<u32>::empty() })' % (T, T, T)),
                    C('C02+C06+C12.uplink.accounting_untouched_unless_reg3', '%s != Some(0x9202u16) ==> final(conn).same_except_uplink(old(conn))' % T),
                    'final(conn).conn_id == old(conn).conn_id',
+                   'final(conn).phase is Warming ==> final(conn).phase->rtt_probes < 0xffff_ffff',
                    'r->Ok_0.read_any',
                ],
                loops={
